@@ -288,6 +288,35 @@ def check(run, prog):
         dimensional = [t for t in zt if dim_of(sp.sympify(t[1].expr)) not in ({}, None) or t[1].kind == "quantity"]
         ck.same("R1", fi.where, "zero-shift test " + tag, "the early-exit test compares the shift in samples (a dimensionless number), never a Quantity in the caller's unit",
                 not dimensional, found=str([str(t[1].expr)[:60] for t in dimensional]), nontrivial=bool(zt))
+        # zero-fill extent of the scalar shift at chosen magnitudes: small, fractional, whole, and tens of thousands of samples with a
+        # small fraction (where a relative-tolerance "snap to whole samples" would change the extent and the delay)
+        stores = [t for t in ev.trace if t[0] == "store"]
+        free = [x for x in sp.sympify(s_eff).free_symbols if x.name in ("s", "sq")]
+        if stores and len(free) == 1 and "int" not in dtype:
+            from .c04 import concretize_index
+            bad_ext, unk_ext = None, None
+            for a_s in (sp.Rational(5, 2), sp.Rational(-7, 2), sp.Rational(1, 3), sp.Integer(7), sp.Integer(-4), sp.Rational(1000003, 10), -sp.Rational(400001, 8),
+                        sp.Rational(700005, 100000), sp.Rational(-1, 5)):
+                nval = sp.Integer(2 ** 18)
+                sol = sp.solve(sp.Eq(sp.sympify(s_eff).subs({N: nval, SR: 1, Hz: 1}), a_s), free[0])
+                if len(sol) != 1:
+                    unk_ext = f"cannot choose the shift symbol for {a_s} samples"
+                    break
+                pt = {N: nval, SR: sp.Integer(1), Hz: sp.Integer(1), free[0]: sol[0]}
+                got = concretize_index(stores[0][2], pt)
+                if got is None:
+                    unk_ext = f"store index not decidable at {a_s} samples: {str(stores[0][2])[:120]}"
+                    break
+                want = (int(sp.floor(a_s)), None) if a_s < 0 else (None, int(sp.ceiling(a_s)))
+                if got != want:
+                    bad_ext = f"shift of {a_s} samples (N = {nval}): zero-fills [{got[0]}:{got[1]}], expected [{want[0]}:{want[1]}]"
+                    break
+            if unk_ext:
+                ck.unk("R2", fi.where, "zero-fill extent " + tag, "first ceil(s) / last ceil(|s|) samples for a shift of s samples", unk_ext)
+            else:
+                ck.same("R2", fi.where, "zero-fill extent (scalar shift, chosen magnitudes) " + tag,
+                        "the zero-filled range is [:ceil(s)] for s > 0 and [floor(s):] for s < 0, also for shifts of tens of thousands of samples with a small fraction",
+                        bad_ext is None, found=bad_ext, nontrivial=True)
         bm = [t for t in ev.trace if t[0] == "broadcast-mismatch"]
         ck.same("R1", fi.where, "ramp axis " + tag, "the frequency ramp lies along the time axis (axis 0) and broadcasts over the sample shape",
                 not bm, found=str(bm)[:160], nontrivial=True)
